@@ -81,8 +81,11 @@ SpanIsRows(o) == o.end - o.start + 1 = SumLen(o.rows)
 NoTerminalGap(o) == HasRows(o) => IsFrag(First(o)) /\ IsFrag(LastR(o))
 \* r is q, possibly shortened; cut on the scaffold-left / scaffold-right side of the row
 SubRow(r, q) == r.k = q.k /\ r.name = q.name /\ r.st = q.st /\ q.s <= r.s /\ r.e <= q.e /\ r.s <= r.e
-CutLeft(r, q) == IF r.st = -1 THEN q.e - r.e ELSE r.s - q.s
-CutRight(r, q) == IF r.st = -1 THEN r.s - q.s ELSE q.e - r.e
+\* cut on the scaffold-left / scaffold-right side of the row, for a fragment read in orientation m (1 forward, -1 reverse)
+CutLeftM(r, q, m) == IF m = -1 THEN q.e - r.e ELSE r.s - q.s
+CutRightM(r, q, m) == IF m = -1 THEN r.s - q.s ELSE q.e - r.e
+\* orientations a row may be read in: its strand; a fragment of unknown strand (0) may have been shortened at either end
+Orients(r) == IF r.st = 0 THEN {1, -1} ELSE {r.st}
 ContiguousRun(o, src) ==
   ~HasRows(o) \/
   \E lo \in 1..Len(src) :
@@ -90,9 +93,11 @@ ContiguousRun(o, src) ==
      /\ hi <= Len(src)
      /\ \A i \in 2..(n - 1) : o.rows[i] = src[lo + i - 1]
      /\ SubRow(o.rows[1], src[lo]) /\ SubRow(o.rows[n], src[hi])
-     /\ (n > 1 => CutRight(o.rows[1], src[lo]) = 0 /\ CutLeft(o.rows[n], src[hi]) = 0)
-     /\ o.start = RStart(src, lo) + CutLeft(o.rows[1], src[lo])
-     /\ o.end = REnd(src, hi) - CutRight(o.rows[n], src[hi])
+     /\ \E m1 \in Orients(o.rows[1]), m2 \in Orients(o.rows[n]) :
+          /\ (n = 1 => m1 = m2)
+          /\ (n > 1 => CutRightM(o.rows[1], src[lo], m1) = 0 /\ CutLeftM(o.rows[n], src[hi], m2) = 0)
+          /\ o.start = RStart(src, lo) + CutLeftM(o.rows[1], src[lo], m1)
+          /\ o.end = REnd(src, hi) - CutRightM(o.rows[n], src[hi], m2)
 \* the figures reported by the object (record d) equal plain interval arithmetic on (span, rows, bait)
 Derived(o, a, b, d) ==
   /\ d.len = Length(o) /\ d.so = StartOverhang(o, a) /\ d.eo = EndOverhang(o, b)
@@ -105,10 +110,10 @@ Figures(o, a, b) ==
 
 \* ------------------------------------------------------------------ bounded model (MC_OverlapResult)
 CONSTANTS MaxRows, Lens, ErrLens
-RowKinds == {"+", "-", "G"}
+RowKinds == {"+", "-", "?", "G"}        \* "?" = fragment of unknown strand (0)
 Shapes == UNION {[1..n -> RowKinds \X Lens] : n \in 1..MaxRows}
 MkRow(kd, len, i) == IF kd = "G" THEN GapRow("scaffold", len)
-                     ELSE Frag("c" \o ToString(i), 10 * i + 1, 10 * i + len, IF kd = "+" THEN 1 ELSE -1)
+                     ELSE Frag("c" \o ToString(i), 10 * i + 1, 10 * i + len, IF kd = "+" THEN 1 ELSE IF kd = "-" THEN -1 ELSE 0)
 \* no two adjacent gap rows are excluded: the code must cope with them
 Sources == {[i \in DOMAIN sh |-> MkRow(sh[i][1], sh[i][2], i)] : sh \in Shapes}
 Ops == {[n |-> "DS", e |-> 0, side |-> "", ks |-> FALSE, ke |-> FALSE], [n |-> "DE", e |-> 0, side |-> "", ks |-> FALSE, ke |-> FALSE]}
